@@ -31,23 +31,23 @@ META = {
 
 
 def range_records():
+    """create_spin_range over the whole lattice, as a *history*: every (spin, no_zero, int/float input)
+    is called in ascending order, then again in descending order, then interleaved — a hidden cache
+    that one call corrupts for the next one changes a later record."""
     from ampform.helicity.align._spin import create_spin_range
 
+    combos = [(s2, nz, kind) for s2 in range(0, 11) for nz in (0, 1) for kind in ("int", "float")]
+    order = combos + combos[::-1] + [c for pair in zip(combos[1::2], combos[::2]) for c in pair]
     recs = []
-    for s2 in range(0, 11):
-        for nz in (0, 1):
-            try:
-                vals = create_spin_range(F(s2, 2) if s2 % 2 else s2 // 2, no_zero_spin=bool(nz))
-                ok = all(float(2 * v).is_integer() for v in vals)
-                recs.append({"kind": "range", "id": f"range:{s2}:{nz}", "s2": s2, "nozero": nz, "raised": 0 if ok else 1, "vals": [int(round(2 * v)) for v in vals]})
-            except Exception as ex:  # noqa: BLE001
-                recs.append({"kind": "range", "id": f"range:{s2}:{nz}", "s2": s2, "nozero": nz, "raised": 1, "vals": [], "error": type(ex).__name__})
-            # float input as used by the alignment code
-            try:
-                vals = create_spin_range(s2 / 2, no_zero_spin=bool(nz))
-                recs.append({"kind": "range", "id": f"range-float:{s2}:{nz}", "s2": s2, "nozero": nz, "raised": 0, "vals": [int(round(2 * v)) for v in vals]})
-            except Exception as ex:  # noqa: BLE001
-                recs.append({"kind": "range", "id": f"range-float:{s2}:{nz}", "s2": s2, "nozero": nz, "raised": 1, "vals": [], "error": type(ex).__name__})
+    for pos, (s2, nz, kind) in enumerate(order):
+        arg = (F(s2, 2) if s2 % 2 else s2 // 2) if kind == "int" else s2 / 2
+        rid = f"range:{kind}:{s2}:{nz}:call{pos}"
+        try:
+            vals = create_spin_range(arg, no_zero_spin=bool(nz))
+            ok = all(float(2 * v).is_integer() for v in vals)
+            recs.append({"kind": "range", "id": rid, "s2": s2, "nozero": nz, "raised": 0 if ok else 1, "vals": [int(round(2 * v)) for v in vals], "pos": pos})
+        except Exception as ex:  # noqa: BLE001
+            recs.append({"kind": "range", "id": rid, "s2": s2, "nozero": nz, "raised": 1, "vals": [], "error": type(ex).__name__, "pos": pos})
     return recs
 
 
@@ -137,11 +137,14 @@ def run(chk, replay=None):
     for clause, rid, info in tv.rejects:
         r = byid.get(rid, {})
         if r.get("kind") == "range":
-            sig = f"create_spin_range:s2={r['s2']}:no_zero={r['nozero']}:{'raises-' + r.get('error', '') if r['raised'] else 'wrong-values'}"
+            first = r.get("pos", 0) < 44
+            sig = f"create_spin_range:s2={r['s2']}:no_zero={r['nozero']}:{'raises-' + r.get('error', '') if r['raised'] else 'wrong-values'}:{'first-call' if first else 'after-other-calls'}"
         elif r.get("kind") == "built":
             sig = f"aligned-formulate-raises:{r['alignment'][:3]}:{r['error'].split(':')[0]}"
         elif r.get("kind") == "pools":
             sig = f"pool-not-full-range:{rid.split(':')[-1][:3]}:spin2={info[1]}:massless={info[2]}"
+        elif r.get("kind") == "equal" and r.get("nan") and any(o["massless"] and o["spin2"] > 0 for o in r["outer"][1:]):
+            sig = f"aligned-intensity-is-nan:{r['alignment'][:3]}:massless-final-state-particle-with-spin"
         else:
             sig = f"{clause}:{r.get('alignment', '')[:3]}"
         chk.violation(sig, f"{clause}: {rid}: {str(info)[:400]}", {"record": r})
